@@ -172,7 +172,9 @@ FRAMES = [('', ''), ('a', 'a'), ('> ', ''), ('- ', ''), ('# ', ''), ('[', '](u)'
           ('| a |\n|---|\n| ', ' |'), ('[a]: ', ''),
           # an opener that is never closed, in front of the repetition
           ('~~', ''), ('**', ''), ('$', ''), ('$$', ''), ('[[', ''), ('{{', ''), ('<', ''), ('![', ''), ('``', ''), ('[a](', ''), ('[a]: /u "', ''), ('<!--', ''),
-          ('```', ''), ('~~a', 'b~~'), ('[', ']')]
+          ('```', ''), ('~~a', 'b~~'), ('[', ']'),
+          # a repetition that almost matches a line pattern, spoilt at its very end
+          ('', 'a'), ('', ' a\n'), ('   ', 'x'), ('- ', ' a'), ('> ', 'a')]
 
 
 def pumped(t, max_len=4096):
